@@ -1,6 +1,7 @@
 package main
 
 import (
+	"fmt"
 	"go/token"
 	"go/types"
 	"strings"
@@ -354,4 +355,215 @@ func findStepCalls(fn *ssa.Function, steps map[*ssa.Function]bool) []*ssa.Call {
 	return out
 }
 
-var _ = types.Typ
+// ---- C09.IMM / C10.IMM: the object through which a mutated container is reached ----
+
+// holdersOf: the values through which container (or object) v is reached: for `x.f` the object x, for an element the
+// container it is an element of - followed backward through conversions, phis, local variables, parameters (to the
+// arguments of all callers) and the results of module functions. The provenance engine (flow.go) follows a field load to
+// all stores of the field anywhere and so forgets which object held it: a map that was freshly made where its holder was
+// built is still shared when the holder is.
+func holdersOf(p *Prog, v ssa.Value, transitive bool) []ssa.Value {
+	var out []ssa.Value
+	seen := map[ssa.Value]bool{}
+	var walk func(v ssa.Value, depth int)
+	hold := func(h ssa.Value, depth int) {
+		if !seen[h] {
+			out = append(out, h)
+		}
+		if transitive {
+			walk(h, depth)
+		}
+	}
+	walk = func(v ssa.Value, depth int) {
+		if v == nil || seen[v] || depth > 6 {
+			return
+		}
+		seen[v] = true
+		switch x := v.(type) {
+		case *ssa.UnOp:
+			if x.Op != token.MUL {
+				return
+			}
+			switch a := x.X.(type) {
+			case *ssa.FieldAddr:
+				hold(a.X, depth)
+			case *ssa.IndexAddr:
+				hold(a.X, depth)
+			case *ssa.Alloc:
+				for _, ref := range *a.Referrers() {
+					if s, ok := ref.(*ssa.Store); ok && s.Addr == ssa.Value(a) {
+						walk(s.Val, depth)
+					}
+				}
+			}
+		case *ssa.FieldAddr:
+			hold(x.X, depth)
+		case *ssa.IndexAddr:
+			hold(x.X, depth)
+		case *ssa.Field:
+			hold(x.X, depth)
+		case *ssa.Lookup:
+			hold(x.X, depth)
+		case *ssa.Index:
+			hold(x.X, depth)
+		case *ssa.Extract:
+			switch t := x.Tuple.(type) {
+			case *ssa.Lookup:
+				if x.Index == 0 {
+					hold(t.X, depth)
+				}
+			case *ssa.TypeAssert:
+				if x.Index == 0 {
+					walk(t.X, depth)
+				}
+			case *ssa.Next:
+				if r, ok := t.Iter.(*ssa.Range); ok && x.Index == 2 {
+					hold(r.X, depth)
+				}
+			case *ssa.Call:
+				if f := staticCallee(&t.Call); f != nil && inModule(f) && f.Blocks != nil {
+					for _, b := range f.Blocks {
+						if ret, ok := b.Instrs[len(b.Instrs)-1].(*ssa.Return); ok && x.Index < len(ret.Results) {
+							walk(ret.Results[x.Index], depth+1)
+						}
+					}
+				}
+			}
+		case *ssa.Call:
+			if b, ok := x.Call.Value.(*ssa.Builtin); ok && b.Name() == "append" {
+				walk(x.Call.Args[0], depth)
+				return
+			}
+			if f := staticCallee(&x.Call); f != nil && inModule(f) && f.Blocks != nil {
+				for _, b := range f.Blocks {
+					if ret, ok := b.Instrs[len(b.Instrs)-1].(*ssa.Return); ok && len(ret.Results) > 0 {
+						walk(ret.Results[0], depth+1)
+					}
+				}
+			}
+		case *ssa.TypeAssert:
+			walk(x.X, depth)
+		case *ssa.ChangeInterface:
+			walk(x.X, depth)
+		case *ssa.MakeInterface:
+			walk(x.X, depth)
+		case *ssa.ChangeType:
+			walk(x.X, depth)
+		case *ssa.Convert:
+			walk(x.X, depth)
+		case *ssa.Slice:
+			walk(x.X, depth)
+		case *ssa.Phi:
+			for _, e := range x.Edges {
+				walk(e, depth)
+			}
+		case *ssa.Parameter:
+			fn := x.Parent()
+			idx := -1
+			for i, q := range fn.Params {
+				if q == x {
+					idx = i
+				}
+			}
+			for _, e := range p.callersOf(fn) {
+				if e.Site == nil {
+					continue
+				}
+				cc := e.Site.Common()
+				ai := idx
+				if cc.IsInvoke() {
+					if idx == 0 {
+						walk(cc.Value, depth+1)
+						continue
+					}
+					ai = idx - 1
+				}
+				if ai >= 0 && ai < len(cc.Args) {
+					walk(cc.Args[ai], depth+1)
+				}
+			}
+		}
+	}
+	walk(v, 0)
+	return out
+}
+
+// sharedHolder: v is reached through an object that comes from a package-level table or the shared configuration.
+func sharedHolder(p *Prog, v ssa.Value) string {
+	for _, h := range holdersOf(p, v, true) {
+		if _, isAlloc := h.(*ssa.Alloc); isAlloc {
+			continue
+		}
+		if s := sharedOrigin(p, h, 0); s != "" {
+			return s
+		}
+		if s := cacheElement(p, h); s != "" {
+			return s
+		}
+	}
+	return ""
+}
+
+// cacheElement: v is an entry handed out by one of the per-repository caches (a map field of a type that also has a
+// mutex field and is reached from the Linter by every file of the repository).
+func cacheElement(p *Prog, v ssa.Value) string {
+	for _, o := range p.Origins(v, FlowOpts{Params: true, Fields: false, MaxDepth: 10}) {
+		if o.Kind != OElem || o.Base == nil {
+			continue
+		}
+		f, base := fieldLoad(o.Base)
+		if f == "" || base == nil {
+			continue
+		}
+		if _, isMap := o.Base.Type().Underlying().(*types.Map); !isMap {
+			continue
+		}
+		n := namedOf(base.Type())
+		if n == nil {
+			continue
+		}
+		st, ok := n.Underlying().(*types.Struct)
+		if !ok {
+			continue
+		}
+		for i := 0; i < st.NumFields(); i++ {
+			if t := typeStr(st.Field(i).Type()); t == "sync.RWMutex" || t == "sync.Mutex" {
+				return "an entry of the cache " + f + " shared by all files of a repository"
+			}
+		}
+	}
+	return ""
+}
+
+// c09ImmIndirect: a map is written that is not loaded from a field on the spot (it is a parameter, a phi or the result of
+// a call). Every type object through whose field the map can arrive is judged like the receiver of a direct write.
+func c09ImmIndirect(c *Ctx, fn *ssa.Function, in ssa.Instruction, m ssa.Value, what string, occ map[string]int) {
+	p := c.P
+	if _, isMap := m.Type().Underlying().(*types.Map); !isMap {
+		return
+	}
+	switch m.(type) {
+	case *ssa.MakeMap:
+		return
+	}
+	seenHolder := map[ssa.Value]bool{}
+	for _, h := range holdersOf(p, m, false) {
+		if n := pointeeName(h.Type()); n != "ObjectType" && n != "ArrayType" || seenHolder[h] {
+			continue
+		}
+		seenHolder[h] = true
+		if _, isAlloc := h.(*ssa.Alloc); isAlloc {
+			continue
+		}
+		k := FuncName(fn) + "|" + what + " through a map handed on from a type object"
+		occ[k]++
+		construct := fmt.Sprintf("%s#%d", k, occ[k])
+		origs := p.Origins(h, FlowOpts{Params: true, Fields: true, MaxDepth: 12})
+		bad := describeOrigins(p, origs)
+		if len(bad) == 0 {
+			c.ok(construct, in.Pos(), fmt.Sprintf("the type object whose map is written (held at %s) can only be one of %d fresh allocations", p.Pos(h.Pos()), len(origs)))
+			continue
+		}
+		c.bad(construct, in.Pos(), "writes into a map that belongs to a type object (held at "+p.Pos(h.Pos())+") that may be shared: it can be "+shortList(bad, 3)+". Types handed out by the checker are shared between expressions, jobs and files")
+	}
+}
